@@ -38,6 +38,12 @@ def grammars():
         # a class that is one rule's own type and another rule's declared base, the base chain declared by the earlier rule
         'own-type-and-base': grammar(rule('s', seq(named('l', call('lit')), named('t', opt(call('str_')))), typ=['Root']),
                                      rule('lit', named('v', ab), typ=['Literal', 'Expr']), rule('str_', named('w', p), typ=['String', 'Literal'])),
+        # a type named like a Python builtin that is no conversion type, with a class of that name SUPPLIED by the user
+        # (constructors=): the supplied class is the class of that name.  (Without one the builtin of that name is what "builtin
+        # type names convert the value" yields, and the model-module generator leaves builtin names out on purpose: the other
+        # routes are not compared for this grammar.)
+        'builtin-named-class': grammar(rule('s', seq(named('l', call('y')), named('r', opt(call('z')))), typ=['Root']),
+                                       rule('y', named('v', ab), typ=['Warning', 'Diag']), rule('z', named('w', p), typ=['Diag'])),
         'deep': grammar(rule('s', seq(named('c', call('m')), opt(b)), typ=['Root']), rule('m', seq(named('d', call('y')), named('e', star(call('y')))), typ=['Mid']), leaf()),
     }
 
@@ -149,7 +155,7 @@ def run(tier):
             so = spec_outcome(s)
             text = c['texts'][t]
             for how in ('asmodel', 'builder', 'generated', 'typedefs', 'classic'):
-                if how not in o:
+                if how not in o or (c['label'] == 'builtin-named-class' and how != 'classic'):
                     continue
                 ck.count(evaluations=1, traces=1)
                 got = o[how]
